@@ -127,17 +127,15 @@ class Mapper:
         self.woken = {}
         self.q = {}
         self.peer_at = {}   # (inst, j) -> peer port of the stream just accepted
-        self.pending = []   # (inst, peer, index among the instance's connection tasks): counted, task not yet seen
+        self.pending = []   # (inst, peer, token): counted, task not yet seen; token = {c: index among the instance's connection tasks (given at the accept loop's next al.top), deferred: entries held back, kst: mirror of the request loop 0 waiting / 1 serving / 2 left}
         self.nconn = {}
-        self.conn_tid = {}  # (inst, tid) -> index among the instance's connection tasks
+        self.conn_tid = {}  # (inst, tid) -> token of the connection task
         self.fin = set()
         self.accepted = []  # (peer port, listener index, time of the accept hook, instance)
         self.nlisten = {}   # instance -> sockets bound so far by its execute()
         self.nbound = {}    # instance -> sockets put into listening state so far by its execute()
         self.unknown = []
-        self.uncreated = {}  # (inst, listener j) -> connection index counted by the accept loop, its task not yet in the model
-        self.deferred = {}   # (inst, c) -> entries held back until the model has the task
-        self.kst = {}        # (inst, c) -> mirror state of the request loop: 0 waiting, 1 serving, 2 left
+        self.uncreated = {}  # (inst, listener j) -> token of the connection counted by the accept loop, its task not yet in the model
         self.nwait = {}      # instance -> late waiters so far
         self.widx = {}       # (inst, kind) -> index of the late waiter
 
@@ -147,13 +145,14 @@ class Mapper:
         if label[1][0] == ("N", 1):            # HMain: remember execute()'s program counter (reported with HBind)
             self.mobs[label[1][1][1]] = obs
 
-    def conn_entry(self, n, i, c, label, obs):
-        """an entry of connection task c: held back while the accept loop has not reached its next `al.top` (only there does the
-        model get the task; the points `co.start` and `hx.req` do not wait for the accept loop's segment to end)"""
-        if (i, c) in self.deferred:
-            self.deferred[(i, c)].append((n, label, obs))
+    def conn_entry(self, n, tok, mk, obs):
+        """an entry of a connection task: held back while the accept loop has not reached its next `al.top` — only there does the
+        model get the task (and the task its index among the instance's connection tasks); the points `co.start` and `hx.req` do
+        not wait for the accept loop's segment to end, and another accept loop may pass in between"""
+        if tok["c"] is None:
+            tok["deferred"].append((n, mk, obs))
         else:
-            self.emit(n, label, obs)
+            self.emit(n, mk(tok["c"]), obs)
 
     def listener_of(self, i, tid, port):
         if (i, tid) in self.lst:
@@ -204,9 +203,9 @@ class Mapper:
                 if name == "co.start":
                     # the task of the oldest not yet started connection with this peer port (the same client port may be
                     # connected to two ports at once; two such tasks are in the same state, so either choice is a trace)
-                    for m, (ii, peer, ix) in enumerate(self.pending):
+                    for m, (ii, peer, tok) in enumerate(self.pending):
                         if ii == i and peer == val:
-                            self.conn_tid[(i, tid)] = ix
+                            self.conn_tid[(i, tid)] = tok
                             del self.pending[m]
                             break
                 continue
@@ -287,10 +286,14 @@ class Mapper:
                 k = (i, j)
                 if self.lpc.get(k) == LCOUNTED:
                     self.emit(n, hsd(i, L_STEP, j), LTOP)
-                    c = self.uncreated.pop(k, None)
-                    if c is not None:
-                        for e in self.deferred.pop((i, c), []):
-                            self.emit(*e)
+                    tok = self.uncreated.pop(k, None)
+                    if tok is not None:
+                        # this step appends the task to the model's list of connection tasks
+                        tok["c"] = self.nconn.get(i, 0)
+                        self.nconn[i] = tok["c"] + 1
+                        for n0, mk, obs in tok["deferred"]:
+                            self.emit(n0, mk(tok["c"]), obs)
+                        tok["deferred"] = []
                 self.lpc[k] = LTOP
                 continue
             if (i, tid) in self.lst and (name.startswith("ap.") or name.startswith("al.") or name.startswith("rm.")):
@@ -316,11 +319,9 @@ class Mapper:
                     if name == "al.counted":
                         # the task is spawned, and gets its index among the instance's connection tasks, in the segment that
                         # ends at the next al.top; no other accept loop can be between its al.counted and al.top
-                        c = self.nconn.get(i, 0)
-                        self.pending.append((i, val, c))
-                        self.nconn[i] = c + 1
-                        self.uncreated[k] = c
-                        self.deferred[(i, c)] = []
+                        tok = {"c": None, "deferred": [], "kst": 0}
+                        self.pending.append((i, val, tok))
+                        self.uncreated[k] = tok
                     self.emit(n, hsd(i, L_STEP, j), new)
                     self.lpc[k] = new
                 elif name == "al.got":
@@ -342,22 +343,22 @@ class Mapper:
                 continue
             # ---- connection tasks: the request loop, then the release of the connection's count ----
             if (i, tid) in self.conn_tid and name in ("hx.req", "hx.cont"):
-                c = self.conn_tid[(i, tid)]
+                tok = self.conn_tid[(i, tid)]
                 if name == "hx.req":
-                    self.kst[(i, c)] = 1
-                    self.conn_entry(n, i, c, xl(xn(7), xn(i), xn(c)), 1)
+                    tok["kst"] = 1
+                    self.conn_entry(n, tok, lambda c, i=i: xl(xn(7), xn(i), xn(c)), 1)
                 else:
-                    self.kst[(i, c)] = 0 if val == 1 else 2
-                    self.conn_entry(n, i, c, xl(xn(8), xn(i), xn(c)), self.kst[(i, c)])
+                    tok["kst"] = 0 if val == 1 else 2
+                    self.conn_entry(n, tok, lambda c, i=i: xl(xn(8), xn(i), xn(c)), tok["kst"])
                 continue
             if (i, tid) in self.conn_tid and name.startswith("rm."):
-                c = self.conn_tid[(i, tid)]
-                if name == "rm.enter" and self.kst.get((i, c), 0) != 2:
+                tok = self.conn_tid[(i, tid)]
+                if name == "rm.enter" and tok["kst"] != 2:
                     # the loop was left without the re-check: the client closed, no request head within 5 s, an I/O error
-                    self.kst[(i, c)] = 2
-                    self.conn_entry(n, i, c, xl(xn(10), xn(i), xn(c)), 2)
+                    tok["kst"] = 2
+                    self.conn_entry(n, tok, lambda c, i=i: xl(xn(10), xn(i), xn(c)), 2)
                 new = {"rm.enter": 3, "rm.dec": 4, "rm.flag": 5, "rm.exit": 6}[name]
-                self.conn_entry(n, i, c, hsd(i, C_STEP, c), new)
+                self.conn_entry(n, tok, lambda c, i=i: hsd(i, C_STEP, c), new)
                 continue
             # anything else: a hook point the mapper does not know is a label the model does not have
             self.unknown.append((name, i))
@@ -726,9 +727,13 @@ def generate(rng, tier):
     cases.append(case(1, 2, 1, 17, 100, [D("ctl.reply", 60, 1, 0)], 150, 1, 60, "keep-alive", ka=1, dual=1))
     cases.append(case(2, 1, 0, 18, 100, [D("sh.notify", 80, 1, 0)], 120, 0, 60, "keep-alive", ka=1, stale=1))
     cases.append(case(1, 1, 1, 19, 50, [], 60, 0, 40, "idle-keep-alive", ka=2))
+    # the witness of eager_start_refuted: every successor is started as soon as execute() of its predecessor has returned, while
+    # the predecessor's main task keeps its thread busy (current-thread runtime: its control-socket task cannot run)
+    cases.append(case(1, 2, 0, 5, 100, [], 100, 1, 50, "eager-start", eager=1, block=50))
+    cases.append(case(2, 3, 1, 6, 100, [D("ctl.started", 30, 1, 1)], 120, 2, 40, "eager-start", eager=1, block=20, ka=1))
     for x in [xn(3), xl(xn(1)), xl(*[xn(0)] * 14), xl(*([xn(1)] * 13 + [xl()]))]:
         cases.append(Case("handover.run", x, None, {"kind": "malformed"}, "dev"))
-    nrand = 11 if quick else 300
+    nrand = 10 if quick else 300
     for _ in range(nrand):
         n = rng.choice([1, 1, 2, 2, 3])
         k = rng.choice([1, 1, 2, 3] if quick else [1, 1, 2, 2, 3, 4, 5])
@@ -742,8 +747,10 @@ def generate(rng, tier):
             k = min(k, 2)
         dual = rng.choice([0, 0, 1])
         stale = rng.choice([0, 0, 0, 1])
+        eager = rng.choice([0, 0, 1])
+        block = rng.choice([0, 20, 60]) if eager else 0
         cases.append(case(n, k, fl, rng.randrange(1, 1 << 30), jitter, random_delays(rng), slow, nslow, gap, "random", ka=ka, dual=dual,
-                          stale=stale))
+                          stale=stale, eager=eager, block=block))
     return cases
 
 
